@@ -2,6 +2,8 @@ package config
 
 import (
 	"fmt"
+	"strconv"
+	"strings"
 
 	uuid "github.com/gofrs/uuid/v5"
 )
@@ -14,6 +16,23 @@ func ConvertFloatForBinding(value interface{}, bindingName string) (*float64, er
 		return &floatValue, nil
 	}
 	return nil, fmt.Errorf("binding %s has unsupported value '%v'", bindingName, value)
+}
+
+// CheckCrontabSteps returns an error if a crontab field has a zero step ("*/0", "1-5/0"):
+// cron.Parse never returns for such expressions.
+func CheckCrontabSteps(crontab string) error {
+	for _, field := range strings.Fields(crontab) {
+		for _, expr := range strings.Split(field, ",") {
+			idx := strings.Index(expr, "/")
+			if idx < 0 {
+				continue
+			}
+			if step, err := strconv.Atoi(expr[idx+1:]); err == nil && step == 0 {
+				return fmt.Errorf("step in '%s' should be a positive number", expr)
+			}
+		}
+	}
+	return nil
 }
 
 // MergeArrays returns merged array with unique elements. Preserve elements order.
